@@ -1,0 +1,25 @@
+//go:build verif
+
+// Hooks for the verification harness in /verif (C31–C34). Add-only: nothing
+// in this file is compiled without the `verif` build tag and nothing here
+// changes the behaviour of the package.
+
+package server
+
+import (
+	"github.com/gopcua/opcua/ua"
+	"github.com/gopcua/opcua/uasc"
+)
+
+// VerifCallService hands req to the service handler registered for its type
+// (the function handleService looks up), without a secure channel, and returns
+// what the handler returns. ok is false when no handler is registered (the
+// server has not been started).
+func (s *Server) VerifCallService(sc *uasc.SecureChannel, req ua.Request) (resp ua.Response, err error, ok bool) {
+	h, ok := s.handlers[ua.ServiceTypeID(req)]
+	if !ok {
+		return nil, nil, false
+	}
+	resp, err = h(sc, req, 0)
+	return resp, err, true
+}
